@@ -430,6 +430,8 @@ int main(int argc, char** argv)
                 a.wall_cap = atoi(val());
             else if (!strcmp(k, "--tmpdir"))
                 copy_arg(a.tmpdir, sizeof(a.tmpdir), val());
+            else if (!strcmp(k, "--gdb-on-fail"))
+                g_gdb_on_fail = true;
             else if (!strcmp(k, "--list"))
                 a.list = true;
             else
